@@ -1,19 +1,20 @@
 #!/bin/bash
-# ./seedtest.sh <seeded dir name> <ID> [tier]  : apply the seeded patch to /repo, run the check, undo.
+# ./seedtest.sh <seeded dir name> <ID> [tier] : apply the seeded patch to a scratch copy of /repo's HEAD
+# (outside /repo and /verif), run the check against that copy, remove the copy. /repo itself is not touched.
 set -u
 S=/verif/seeded/$1; ID=$2; TIER=${3:-quick}
-cd /repo
-if [ -n "$(git status --porcelain --untracked-files=no)" ]; then echo "/repo not clean"; exit 9; fi
-if ! git apply --check "$S/patch.diff" 2>/dev/null; then
-  if ! git apply --3way "$S/patch.diff" >/dev/null 2>&1; then echo "PATCH-DOES-NOT-APPLY $1"; git checkout -- . ; git reset -q; exit 8; fi
-  git reset -q
-else
-  git apply "$S/patch.diff"
+W=/tmp/seedrepo-$1-$ID
+rm -rf "$W"; git -C /repo worktree prune
+git -C /repo worktree add -q --detach "$W" HEAD || exit 9
+cd "$W"
+if ! git apply "$S/patch.diff" 2>/dev/null; then
+  if ! git apply --3way "$S/patch.diff" >/dev/null 2>&1; then echo "PATCH-DOES-NOT-APPLY $1"; cd /; git -C /repo worktree remove --force "$W"; exit 8; fi
 fi
 cd /verif
-VERIF_EVIDENCE=/tmp/seedtest-evidence-$ID.json ./check $ID $TIER > /tmp/seedtest-$1-$ID.log 2>&1
+VERIF_REPO=$W VERIF_EVIDENCE=/tmp/seedtest-evidence-$1-$ID.json ./check $ID $TIER > /tmp/seedtest-$1-$ID.log 2>&1
 rc=$?
-git -C /repo checkout -- .
+git -C /repo worktree remove --force "$W"
+rm -rf /verif/.build/alt-*seedrepo*
 echo "seed=$1 check=$ID tier=$TIER exit=$rc"
-grep -E '^(VIOLATION|  detail)' /tmp/seedtest-$1-$ID.log | cut -c1-400 | head -8
+grep -E '^(VIOLATION|  detail|BUILD-FAILED)' /tmp/seedtest-$1-$ID.log | cut -c1-400 | head -8
 exit 0
